@@ -17,7 +17,7 @@ FIXED_KEY = bytes(range(16))
 
 def plan(tier):
     return {
-        'level': 'exploration', 'shards': 16, 'budget_s': 120 if tier == 'quick' else 600,
+        'level': 'exploration', 'shards': 16, 'budget_s': 240 if tier == 'quick' else 600,
         'rule': 'pairs (prefix history ending in a chosen kind of request, probe request); the probe '
                 'is sent to the long-lived engine and to a fresh engine on a byte copy of the same '
                 'database under the same virtual clock; a cell is (kind of last prefix request, probe, '
